@@ -276,7 +276,12 @@ func (e *Engine) havocTargets(st *State, ts []modTarget) {
 			vs := strings.TrimSuffix(strings.TrimPrefix(e.compSort[c], "(Array Loc "), ")")
 			for _, t := range ts {
 				if t.comp == c {
-					chain = sto(chain, t.ix, vc.fresh("hvcell", vs))
+					nv := vc.fresh("hvcell", vs)
+					if strings.HasPrefix(c, "MapDom$") || strings.HasPrefix(c, "MapVal$") {
+						// the nil map cannot be written (and has no keys): `modifies m[:]` with m == nil is a no-op
+						nv = ite(eq(t.ix, "nil"), sel(chain, t.ix), nv)
+					}
+					chain = sto(chain, t.ix, nv)
 				}
 			}
 			nw = vc.name("hv$"+c, e.compSort[c], chain)
